@@ -25,6 +25,39 @@ def setup_impl():
     return qexpy
 
 
+def fresh_impl():
+    """forget every qexpy module and import the library again: whatever the library keeps between calls (module-level
+    caches, registries, settings) starts as in a new interpreter.  The harness imports qexpy inside its functions, so it
+    picks up the new modules."""
+    for k in [m for m in sys.modules if m == "qexpy" or m.startswith("qexpy.")]:
+        del sys.modules[k]
+    return setup_impl()
+
+
+def minimize_session(prefix, fails):
+    """delta debugging (complements only) of the cases that ran before a failing one: the shortest prefix found for
+    which [fails(prefix)] still holds; [fails] must start from a fresh library state"""
+    items = list(prefix)
+    n = 2
+    while items:
+        chunk = -(-len(items) // n)
+        removed = False
+        for i in range(0, len(items), chunk):
+            cand = items[:i] + items[i + chunk:]
+            try:
+                bad = fails(cand)
+            except Exception:
+                bad = False
+            if bad:
+                items, n, removed = cand, max(n - 1, 2), True
+                break
+        if not removed:
+            if chunk == 1:
+                break
+            n = min(n * 2, len(items))
+    return items
+
+
 class Ctx:
     def __init__(self, prop_id, tier, seed):
         self.prop_id, self.tier, self.seed = prop_id, tier, seed
